@@ -31,7 +31,32 @@ const POOL: &[&[u8]] = &[
     b"A:K #11\n;:B?\n",
     // a command (not a query) whose handler returns a value: nothing may be written for it
     b"A:V;:B?\n",
+    // a faulty unit behind a query: the answer is owed when the terminator has arrived, whatever
+    // the faulty unit looks like ('#2' and a newline is not the beginning of a block)
+    b"B?;A:K #2\n",
+    b"Z #9\n",
 ];
+
+/// Lockstep expectation: (offset behind the terminator, number of handler calls) of every
+/// message of the stream, messages delimited by spec::lexscan and the calls taken from `run`
+/// on the message alone.  None if a message does not fit the buffer (it is discarded).
+fn lockstep(s: &[u8], n: usize) -> Option<Vec<(usize, usize)>> {
+    let (msgs, _) = mc::spec::lexscan::split(s);
+    let mut v = vec![];
+    let mut off = 0;
+    for m in msgs {
+        if m.len() > n {
+            return None;
+        }
+        off += m.len();
+        let (o, obs) = mc::mainx::run_obs(m, Pattern::NONE);
+        if o.end != End::Returned {
+            return None;
+        }
+        v.push((off, obs.calls.len()));
+    }
+    Some(v)
+}
 
 /// response owed for one query call as logged (`name(args)`), with newline
 fn owed_for(call: &[u8]) -> Option<Vec<u8>> {
@@ -99,8 +124,11 @@ fn match_written(segs: &[Seg], written: &[u8]) -> Result<bool, ()> {
 }
 
 /// Violations of the fault-free trace predicates: (kind, detail)
-fn judge_trace(l: &Log, n: usize) -> Vec<(&'static str, String)> {
+fn judge_trace(l: &Log, n: usize, lock: Option<&[(usize, usize)]>) -> Vec<(&'static str, String)> {
     let mut v = vec![];
+    let mut delivered = 0usize;
+    let mut entered = 0usize;
+    let mut lock_reported = false;
     let ev = &l.ev;
     let mut segs: Vec<Seg> = vec![];
     let mut written: Vec<u8> = vec![];
@@ -109,6 +137,7 @@ fn judge_trace(l: &Log, n: usize) -> Vec<(&'static str, String)> {
     for (i, e) in ev.iter().enumerate() {
         match e.k {
             K::Enter => {
+                entered += 1;
                 if let Some(r) = owed_for(l.data(e)) {
                     // owed only if the unit did not fail: no error before the next unit / transport call
                     let mut failed = false;
@@ -122,7 +151,11 @@ fn judge_trace(l: &Log, n: usize) -> Vec<(&'static str, String)> {
                             _ => break,
                         }
                     }
-                    if !failed {
+                    // the error behind a query is its own only if it can fail at all: its handler
+                    // returns an error, or its response does not fit the N-byte response buffer;
+                    // otherwise the error belongs to the (parse-faulty) unit that follows
+                    let own = l.data(e).starts_with(b"A:F?") || r.len() > n;
+                    if !failed || !own {
                         segs.push(Seg::Owed(r));
                     } else if r.len() > n {
                         segs.push(Seg::TooBig(r));
@@ -138,6 +171,22 @@ fn judge_trace(l: &Log, n: usize) -> Vec<(&'static str, String)> {
             }
             K::TFlush => unflushed = false,
             K::TRead | K::TEof => {
+                // lockstep: every message whose terminator has been delivered has been executed
+                // before process asks for more input
+                if let (Some(lock), false) = (lock, lock_reported) {
+                    let expected: usize = lock.iter().filter(|m| m.0 <= delivered).map(|m| m.1).sum();
+                    if entered < expected {
+                        lock_reported = true;
+                        v.push((
+                            "reads-on-while-a-complete-message-is-unexecuted",
+                            format!("{delivered} bytes delivered, {entered} handler calls so far, {expected} expected"),
+                        ));
+                    }
+                }
+                if e.k == K::TRead {
+                    let d = String::from_utf8_lossy(l.data(e)).to_string();
+                    delivered += d.split(':').nth(1).and_then(|x| x.parse::<usize>().ok()).expect("TRead event data");
+                }
                 if !reported {
                     let owed: Vec<u8> = segs.iter().flat_map(|s| if let Seg::Owed(r) = s { r.clone() } else { vec![] }).collect();
                     match match_written(&segs, &written) {
@@ -192,6 +241,7 @@ fn wit(n: usize, s: &[u8], sizes: &[usize], fault: Option<usize>, pat: Pattern) 
 }
 
 fn check_case(st: &mut St, n: usize, s: &[u8], sizes: &[usize], with_pending: bool) {
+    let lock = lockstep(s, n);
     // fault-free execution
     let o = proc_raw(n, s, sizes, None, Pattern::NONE, false);
     st.execs += 1;
@@ -201,7 +251,7 @@ fn check_case(st: &mut St, n: usize, s: &[u8], sizes: &[usize], with_pending: bo
         return;
     }
     let leaves = exec::leaves();
-    let (base, viol, digest) = log::with(|l| (snapshot(l), judge_trace(l, n), l.digest(ALL)));
+    let (base, viol, digest) = log::with(|l| (snapshot(l), judge_trace(l, n, lock.as_deref()), l.digest(ALL)));
     st.distinct.add(digest);
     let key = (s.len() * 1000 + sizes.len(), s);
     let add = |st: &mut St, kind: &str, detail: String, fault: Option<usize>, pat: Pattern| {
@@ -415,6 +465,7 @@ fn main() {
     out.assumptions = vec![
         "responses owed are derived from the observed handler log and the value table of the recording interface".into(),
         "a query unit counts as failed (nothing owed) when an error is reported for it".into(),
+        "lockstep: messages are delimited by spec::lexscan; the number of handler calls a message owes is taken from run on the message alone; only checked when every message fits N".into(),
     ];
     out.wall_s = t0.elapsed().as_secs_f64();
     out.write(&args);
